@@ -173,10 +173,18 @@ def file_harness(L, kind, sw, ch, sr, KF):
         for step in range(KF):
             k = I("k%d" % step)
             args[step] = k
-            nops = 1 if kind == "stdin" else 3
+            nops = 1 if kind == "stdin" else 4
             opi = e.choose(nops)
             if kind == "stdin":
                 e.assume(k >= 0)
+            if opi == 3:
+                # a redundant open() on an open source must not disturb the stream
+                trace.append("open_again")
+                try:
+                    src.open()
+                except Exception:
+                    conds["%d:redundant open" % step] = False
+                continue
             if opi == 2:
                 # close, check that reading is refused, reopen: a file source starts again at the beginning
                 trace.append("reopen")
@@ -268,8 +276,12 @@ def replay_fn(c):
                     w.writeframes(data)
                 src = rio.WaveAudioSource(p)
             else:
+                class _Pipe(_io.BytesIO):
+                    def read1(self, k=-1):         # a pipe may hand out fewer bytes than asked for
+                        return _io.BytesIO.read(self, 1 if k != 0 else 0)
+
                 class _S:
-                    buffer = _io.BytesIO(data)
+                    buffer = _Pipe(data)
                 sys.stdin = _S()
                 src = rio.StdinAudioSource(sr, sw, ch)
             try:
@@ -305,6 +317,8 @@ def replay_fn(c):
                     src.position_s = k / DEN
                 elif op == "set_pos_ms":
                     src.position_ms = k
+                elif op == "open_again":
+                    src.open()
                 elif op == "reopen":
                     src.close()
                     try:
